@@ -49,6 +49,7 @@ type c12Report struct {
 	Baseline   map[string]string `json:"baseline"` // "<config>/<format>" -> sha256 of the sequential build
 	Events     []c12Event        `json:"events"`
 	Fatal      string            `json:"fatal,omitempty"`
+	Stuck      string            `json:"stuck,omitempty"`
 }
 
 // c12Worker runs inside a -race child process: `check worker c12 <seed> <nconfigs> <reps> <gomaxprocs> <out.json>`.
@@ -104,6 +105,24 @@ func c12Worker(args []string) int {
 				Bytes: bytes.Repeat([]byte(fmt.Sprintf("one MiB and a bit, config %d, sixty-four byte line of text.....\n", ci)), (1<<20)/48)})
 			_ = c.Tree.Materialize(root)
 			s.Contents = append(s.Contents, &gen.Content{Src: filepath.Join(root, nd.Rel), Dst: "/opt/" + s.Name + "/one-mib-and-a-bit.bin"})
+		}
+		if ci%2 == 1 {
+			// a few hundred small entries: whatever a packager rations per entry
+			// (file handles, slots, buffers) is in demand from several builds at once
+			td := filepath.Join(root, "many")
+			for k := 0; k < 180; k++ {
+				_ = os.MkdirAll(filepath.Join(td, fmt.Sprintf("d%02d", k%9)), 0o755)
+				fp := filepath.Join(td, fmt.Sprintf("d%02d", k%9), fmt.Sprintf("f%03d.txt", k))
+				_ = os.WriteFile(fp, []byte(fmt.Sprintf("entry %d\n", k)), 0o644)
+				_ = os.Chtimes(fp, time.Unix(1111111114, 0), time.Unix(1111111114, 0))
+			}
+			_ = filepath.Walk(td, func(p string, fi os.FileInfo, err error) error {
+				if err == nil && fi.IsDir() {
+					_ = os.Chtimes(p, time.Unix(1111111114, 0), time.Unix(1111111114, 0))
+				}
+				return nil
+			})
+			s.Contents = append(s.Contents, &gen.Content{Type: "tree", Src: td, Dst: "/usr/share/" + s.Name + "/many"})
 		}
 		// no package mtime and no SOURCE_DATE_EPOCH: the packagers fall back to the
 		// clock (outputs are then compared for success only)
@@ -187,6 +206,26 @@ func c12Worker(args []string) int {
 			}
 			record(e)
 		}
+		// a batch that does not finish is a finding of its own (builds blocking each
+		// other): the bound is three orders of magnitude above what a batch takes,
+		// the goroutine dump goes into the report, the worker stops (stuck builds
+		// cannot be cancelled)
+		waitBatch := func(wg *sync.WaitGroup) {
+			done := make(chan struct{})
+			go func() { wg.Wait(); close(done) }()
+			select {
+			case <-done:
+			case <-time.After(10 * time.Minute):
+				buf := make([]byte, 1<<20)
+				buf = buf[:runtime.Stack(buf, true)]
+				mu.Lock()
+				rep.Stuck = fmt.Sprintf("config %d: concurrent packagings still running after 10 minutes\n%s", ci, buf)
+				mu.Unlock()
+				b, _ := json.Marshal(rep)
+				_ = os.WriteFile(args[4], b, 0o644)
+				os.Exit(3)
+			}
+		}
 		nreps := reps
 		if signed {
 			nreps = (reps + 1) / 2 // unlocking protected keys is slow under the race detector
@@ -208,7 +247,7 @@ func c12Worker(args []string) int {
 					go pkg("a:shared-config-get-up-front", rp, g, f, func() (*nfpm.Info, error) { return infos[f], nil }, jit(), &wg, gate)
 				}
 				close(gate)
-				wg.Wait()
+				waitBatch(&wg)
 			}
 			// (b) one parsed config, Get inside the goroutines
 			scenB := func() {
@@ -221,7 +260,7 @@ func c12Worker(args []string) int {
 					go pkg("b:shared-config-get-in-goroutine", rp, g, f, func() (*nfpm.Info, error) { return infoFor(&cfg, f) }, jit(), &wg, gate)
 				}
 				close(gate)
-				wg.Wait()
+				waitBatch(&wg)
 			}
 			// (c) N goroutines with independently parsed settings, any format (also the same one)
 			scenC := func() {
@@ -246,7 +285,7 @@ func c12Worker(args []string) int {
 						}, jit(), &wg, gate)
 					}
 					close(gate)
-					wg.Wait()
+					waitBatch(&wg)
 				}
 			}
 			// (d) four goroutines on the SAME format, started together, format after
@@ -271,7 +310,7 @@ func c12Worker(args []string) int {
 						}, 0, &wg, gate)
 					}
 					close(gate)
-					wg.Wait()
+					waitBatch(&wg)
 				}
 			}
 			// rotate the order so that each scenario is, for some configuration,
@@ -424,6 +463,18 @@ func c12(run *ev.Run, tier string) {
 			default:
 				run.Inconclusive(fmt.Sprintf("worker (GOMAXPROCS=%d) left no report (exit %d): %s", g, code, ev.Short(stderr, 300)))
 			}
+			continue
+		}
+		if rep.Stuck != "" {
+			stacks := rep.Stuck
+			kind := "unclassified"
+			for _, pk := range []string{"arch.", "deb.", "rpm.", "apk.", "ipk.", "files.", "sign."} {
+				if strings.Contains(stacks, "nfpm/v2/"+strings.TrimSuffix(pk, ".")+".") || strings.Contains(stacks, "/"+pk) {
+					kind = strings.TrimSuffix(pk, ".")
+					break
+				}
+			}
+			run.Violate("C12/concurrent-builds-block-each-other/"+kind, map[string]any{"gomaxprocs": g, "report": ev.Short(stacks, 3000), "command": cmdline})
 			continue
 		}
 		if rep.Fatal != "" {
